@@ -73,6 +73,9 @@ CORRUPTIONS (kind, where):
                                    is properly RE-SIGNED by its real signer (the element verifies,
                                    whatever it certified no longer does)
     "wrong_root"      None         chain.root_hex becomes the stranger's key
+    "respell"         i            opt: field=, member=: the hex field is WRITTEN in another spelling
+                                   (chain.cert keeps the canonical one; chain.rendered() / dump() apply
+                                   it; see SPELL_ACCEPTED / SPELL_REFUSED and chain.spell)
 `where` is an element index into chain.cert["elements"] (or a name, meaning its last occurrence).
 """
 import copy
@@ -217,6 +220,58 @@ def key_span(name, message_len):
     return (0, message_len)
 
 
+# ---- spelling of a hex-valued field --------------------------------------------------------------------
+# What the loaders do with each spelling of the same bytes was established by running the unchanged code
+# on every member, for every hex field (v1: message, signature, tweak; v2: message, custom_data, key,
+# auth_data, signature); it is stated as SpellAccepted / SpellRefused in spec/CertChainProps.tla and
+# spec/CertLoadProps.tla:
+SPELL_ACCEPTED = ("lower", "upper", "mixed", "lead_blank", "trail_blank", "inner_blanks", "tabs",
+                  "trail_newline")          # read as the very same bytes
+SPELL_REFUSED = ("ws_only", "empty", "prefix_0x", "odd", "non_ascii", "split_pair", "nbsp")   # load error
+SPELLINGS = SPELL_ACCEPTED + SPELL_REFUSED
+_FULLWIDTH = {c: chr(0xFF10 + i) for i, c in enumerate("0123456789")}
+
+
+def respell(h, member, rng=None):
+    """Another spelling of the canonical (lower-case, no blanks) hex string `h`."""
+    rng = rng or random.Random(len(h))
+    pairs = [h[i:i + 2] for i in range(0, len(h), 2)]
+    if member == "lower":
+        return h
+    if member == "upper":
+        return h.upper()
+    if member == "mixed":
+        return "".join(c.upper() if i % 2 else c for i, c in enumerate(h))
+    if member == "lead_blank":
+        return rng.choice([" ", "  ", "\t", "\n"]) + h
+    if member == "trail_blank":
+        return h + rng.choice([" ", "  ", "\t"])
+    if member == "inner_blanks":
+        return " ".join(pairs)
+    if member == "tabs":
+        return rng.choice(["\t", "\r\n", "\n"]).join(pairs)
+    if member == "trail_newline":
+        return h + rng.choice(["\n", "\r\n"])
+    if member == "ws_only":
+        return rng.choice([" ", "\t", "\n", "   "])
+    if member == "empty":
+        return ""
+    if member == "prefix_0x":
+        return rng.choice(["0x", "0X"]) + h
+    if member == "odd":
+        return h[:-1] if rng.random() < 0.5 else h + "a"
+    if member == "non_ascii":
+        for i, c in enumerate(h):
+            if c in _FULLWIDTH:
+                return h[:i] + _FULLWIDTH[c] + h[i + 1:]
+        return h + _FULLWIDTH["1"] * 2
+    if member == "split_pair":
+        return h[:1] + " " + h[1:]
+    if member == "nbsp":
+        return h[:2] + "\u00a0" + h[2:]
+    raise ValueError("unknown spelling %r" % (member,))
+
+
 def flip_bit(hexstr, byte_pos, bit):
     b = bytearray(bytes.fromhex(hexstr))
     b[byte_pos] ^= (1 << bit)
@@ -257,6 +312,9 @@ class Chain:
         self._msg2id = {}       # message bytes -> message id
         self._tw2id = {}        # tweak bytes -> tweak id
         self._sig2sym = {}      # signature bytes -> (key id, tweak id, message id) it was made with
+        # spelling overlay: (element index, field) -> member of SPELLINGS.  self.cert always holds the
+        # canonical spelling; rendered() / dump() write the chosen spellings
+        self.spelling = {}
 
     # ---- helpers ----
     def _reg(self, kid, key):
@@ -340,9 +398,42 @@ class Chain:
             s.sigk, s.sigt, s.sigover = self._sig2sym.get(bytes.fromhex(e["signature"]),
                                                           ("k_none", "none", "m_none"))
 
+    def respell(self, where, field, member):
+        """Write `field` ("message" | "signature" | "tweak") of element `where` in another spelling of the
+        same bytes (SPELL_ACCEPTED) or in a malformed one (SPELL_REFUSED) when the file is rendered."""
+        i = self.index(where)
+        if field not in self.cert["elements"][i]:
+            raise ValueError("element %d has no %s" % (i, field))
+        if member not in SPELLINGS:
+            raise ValueError("unknown spelling %r" % (member,))
+        self.spelling[(i, field)] = member
+
+    @property
+    def spell(self):
+        """"" | an accepted member | a refused member (a refused one wins): what the file deviates by."""
+        ms = list(self.spelling.values())
+        bad = [m for m in ms if m in SPELL_REFUSED]
+        ok = [m for m in ms if m != "lower"]
+        return bad[0] if bad else ok[0] if ok else ""
+
+    def rendered(self):
+        """The certificate as it is written to the file (spellings applied)."""
+        if not self.spelling:
+            return self.cert
+        out = copy.deepcopy(self.cert)
+        r = random.Random(repr(sorted(self.spelling.items())))
+        for (i, field), member in sorted(self.spelling.items()):
+            e = out["elements"][i]
+            if field in e:
+                sp = respell(e[field], member, r)
+                if member in SPELL_ACCEPTED and bytes.fromhex(sp) != bytes.fromhex(e[field]):
+                    raise AssertionError("spelling %s does not denote the same bytes" % member)
+                e[field] = sp
+        return out
+
     def dump(self, path):
         with open(path, "w") as f:
-            json.dump(self.cert, f)
+            json.dump(self.rendered(), f)
 
     # ---- corruptions ----
     def corrupt(self, kind, where, rng=None, **opt):
@@ -358,6 +449,9 @@ class Chain:
         if kind == "wrong_root":
             self.root_hex = self.keys["x"].hex
             self.root_sym = "k_x"
+            return info
+        if kind == "respell":
+            self.respell(where, opt["field"], opt["member"])
             return info
         if kind == "sig_swap":
             i, j = self.index(where[0]), self.index(where[1])
